@@ -17,9 +17,10 @@ PROPS = {
         "assumptions": [],
     },
     "C03": {
-        "units": [("strictness", r"^(?!<Cow as Aggregator>::match_meta_var)"), ("pattern", r"match_node_impl|match_node_non_recursive|get_match_len")],
+        "units": [("strictness", r"^(?!<Cow as Aggregator>::match_meta_var)"), ("pattern", r"match_node_impl|match_node_non_recursive|get_match_len"), "align"],
         "kani": [],
-        "decided": ["match_terminal == the documented strictness table (kinds agree incl. ERROR wildcard; named terminals need equal text except under signature; only unnamed / comment candidates are ever skipped; only unnamed goal terminals are skipped)",
+        "decided": ["the whole alignment engine (unit align: match_node_impl, match_nodes_impl_recursive, may_match_ellipsis_impl, match_single_node_while_skip_trivial, match_ellipsis, try_get_ellipsis_mode -- mutually recursive, real text): whenever it reports a match there IS an alignment in the sense of the property -- relation justified/aligned: kinds agree (ERROR = wildcard), named tokens agree on text (except signature), `$$$` absorbs a run of consecutive siblings, every candidate left unmatched is skippable under the strictness (trailing ones under should_skip_trailing), every pattern token left unmatched is an unnamed one the strictness lets go; plus termination and no failing unwrap",
+                    "match_terminal == the documented strictness table (kinds agree incl. ERROR wildcard; named terminals need equal text except under signature; only unnamed / comment candidates are ever skipped; only unnamed goal terminals are skipped)",
                     "should_skip_trailing table", "named holes bind only named nodes (match_leaf_meta_var)",
                     "$$$VAR binds a prefix of the run handed over, minus the skipped trailing trivia (consecutive siblings)",
                     "ComputeEnd records the end offset of a node of the aligned region"],
